@@ -94,6 +94,10 @@ pub struct Case {
     /// traffic, one hop with a channel that carries a probe; 0 = none
     #[serde(default)]
     pub gate_ring: usize,
+    /// extra nodes built from the function blocks of des (no gates): 0 = AsyncFn::new, 1 = AsyncFn::failable,
+    /// 2 = AsyncFn::io (task blocked on its receiver for ever), 3 = HandlerFn, 4 = ModuleFn; each holds tokens
+    #[serde(default)]
+    pub blocks: Vec<u8>,
 }
 
 thread_local! {
@@ -261,6 +265,55 @@ pub fn execute(case: &Case) -> Outcome {
             let ch = case.channel.map(|(bitrate, lat)| Channel::new(ChannelMetrics::new(bitrate, Duration::from_nanos(lat), Duration::ZERO, ChannelDropBehaviour::Queue(None))));
             a.connect(b, ch);
         }
+        for (bi, kind) in case.blocks.iter().enumerate() {
+            use des::net::blocks::{AsyncFn, HandlerFn, ModuleFn};
+            let path = format!("blk{bi}");
+            match kind {
+                0 => {
+                    sim.node(path.as_str(), AsyncFn::new(|mut rx| {
+                        let token = Tracked::new("async-fn-task");
+                        async move {
+                            let _t = token;
+                            while rx.recv().await.is_some() {}
+                        }
+                    }));
+                }
+                1 => {
+                    sim.node(path.as_str(), AsyncFn::failable(|mut rx| {
+                        let token = Tracked::new("async-fn-failable-task");
+                        async move {
+                            let _t = token;
+                            while rx.recv().await.is_some() {}
+                            Ok::<(), std::io::Error>(())
+                        }
+                    }));
+                }
+                2 => {
+                    sim.node(path.as_str(), AsyncFn::io(|mut rx| {
+                        let token = Tracked::new("async-fn-io-task");
+                        async move {
+                            let _t = token;
+                            // a timer first, then blocked on the receiver
+                            sleep(Duration::from_nanos(3 * MS)).await;
+                            while rx.recv().await.is_some() {}
+                            Ok(())
+                        }
+                    }));
+                }
+                3 => {
+                    let token = Tracked::new("handler-fn-capture");
+                    sim.node(path.as_str(), HandlerFn::new(move |_msg| {
+                        let _ = &token;
+                    }));
+                }
+                _ => {
+                    sim.node(
+                        path.as_str(),
+                        ModuleFn::new(|| Tracked::new("module-fn-state"), |_state: &mut Tracked, _msg| {}),
+                    );
+                }
+            }
+        }
         if case.gate_ring >= 3 {
             let k = case.gate_ring;
             let gates: Vec<GateRef> = (0..k).map(|j| sim.gate(path_of(case, j % case.mods.len()).as_str(), &format!("r{j}"))).collect();
@@ -350,6 +403,7 @@ pub fn followup() -> (Vec<(usize, u64, u16)>, tracked::Summary) {
         channel: Some((1_000_000, MS)),
         stop: Stop::Complete,
         gate_ring: 0,
+        blocks: Vec::new(),
     };
     let o = execute(&case);
     (o.trace, tracked::summary())
@@ -450,7 +504,8 @@ pub fn gen_case(rng: &mut Rng, small: bool) -> Case {
         _ => Stop::Complete,
     };
     let gate_ring = if rng.chance(1, 5) { 3 + rng.usize_below(4) } else { 0 };
-    Case { mods, channel, stop, gate_ring }
+    let blocks: Vec<u8> = if rng.chance(1, 4) { (0..1 + rng.usize_below(3)).map(|_| rng.below(5) as u8).collect() } else { Vec::new() };
+    Case { mods, channel, stop, gate_ring, blocks }
 }
 
 fn case_hash(c: &Case) -> u64 {
@@ -518,6 +573,9 @@ pub fn cmd(args: &Args) -> Report {
             }
             if case.gate_ring > 0 {
                 rep.count("models_with_closed_gate_ring", 1);
+            }
+            if !case.blocks.is_empty() {
+                rep.count("models_with_function_block_nodes", 1);
             }
             if findings.is_empty() && summary.created >= 5 {
                 rep.nontrivial(case_hash(&case));
